@@ -12,6 +12,9 @@
                      of VERIF_DELAY_FILES (default tokens.py, locking.py, ipc.py, connectors/local.py) the running
                      thread sleeps up to <max ms> with the given probability - what an operating system may do to any
                      thread between two statements; the number of injected delays is appended to <countfile> at exit
+  VERIF_DELAY_AT     "<file suffix>::<source line, stripped>::<milliseconds>[;;...]"  directed preemption: every time a
+                     thread is about to execute that statement it sleeps first (source text, not line numbers, so that
+                     the directive survives edits of the file)
   VERIF_CERT         path prefix: a reporter thread periodically writes a quiescence certificate
                      (<prefix>.<pid>.json) of a scheduler process
 
@@ -110,6 +113,47 @@ if _delay and hasattr(sys, "monitoring"):
         _dmon.set_events(_DTOOL, _dmon.events.LINE)
         if _dcount:
             atexit.register(lambda: _append(_dcount, f"{os.getpid()} {_dstate['n']} {_dstate['lines']}"))
+    except ValueError:
+        pass
+
+_delay_at = os.environ.get("VERIF_DELAY_AT")
+if _delay_at and hasattr(sys, "monitoring"):
+    import linecache as _linecache
+    import time as _time2
+
+    _at = []
+    for _d in _delay_at.split(";;"):
+        _suffix, _text, _ms = _d.split("::")
+        _at.append((_suffix, _text.strip(), float(_ms) / 1000.0))
+    _amon = sys.monitoring
+    _ATOOL = 2
+    _acache = {}
+
+    def _lines_for(filename):
+        if filename not in _acache:
+            found = {}
+            for suffix, text, secs in _at:
+                if filename.endswith(suffix):
+                    for i, l in enumerate(_linecache.getlines(filename), 1):
+                        if l.strip() == text:
+                            found[i] = secs
+            _acache[filename] = found
+        return _acache[filename]
+
+    try:
+        _amon.use_tool_id(_ATOOL, "verif-delay-at")
+
+        def _on_aline(code, line):
+            found = _lines_for(code.co_filename)
+            if not found:
+                return _amon.DISABLE
+            secs = found.get(line)
+            if secs is None:
+                return _amon.DISABLE
+            _time2.sleep(secs)
+
+        _amon.register_callback(_ATOOL, _amon.events.LINE, _on_aline)
+        _amon.set_events(_ATOOL, _amon.events.LINE)
     except ValueError:
         pass
 
